@@ -198,6 +198,9 @@ def _exec_shared(case, log, stats):
             log.add(tid, k, kind, hashlib.sha256(text.encode("utf8")).hexdigest())
             spans.append((tid, k) + record[(tid, k)])
             stats.inc("serialisations")
+            if "EXC:RecursionError" in (text, alone[kind]):
+                stats.inc("recursion_exhausted(no output)")
+                continue
             if text != alone[kind]:
                 return {
                     "invariant": "concurrent_output_differs_from_solo",
@@ -280,6 +283,11 @@ def exec_case(case, log, stats):
             stats.inc("generations")
             if text.startswith("EXC:"):
                 stats.inc("generations_raising")
+            if "EXC:RecursionError" in (text, alone[tid][k]):
+                # recursion headroom differs between a traced thread and an
+                # untraced main thread: no output to compare
+                stats.inc("recursion_exhausted(no output)")
+                continue
             if text != alone[tid][k]:
                 return {
                     "invariant": "concurrent_output_differs_from_solo",
